@@ -364,7 +364,7 @@ def dot_fix_matches(lst, bash):
     empty-valued piece precedes the dot): replacing some of them by their matches gives bash's list"""
     import fnmatch
     import itertools
-    cands = [i for i, x in enumerate(lst) if x.startswith(".") and any(c in x for c in "*?[")][:5]
+    cands = [i for i, x in enumerate(lst) if x.startswith(".") and any(c in x for c in "*?[")][:10]
     for pick in itertools.product([False, True], repeat=len(cands)):
         if not any(pick):
             continue
